@@ -143,10 +143,10 @@ def concrete_of(e):
 
 # uninterpreted transcendental functions (A6: analytic axioms, see solve.py)
 R = z3.RealSort()
-UF = {name: z3.Function(name, R, R) for name in
+UF = {name: z3.Function("uf_" + name, R, R) for name in
       ("exp", "log", "sin", "cos", "tan", "tanh", "sqrt", "arcsin", "arccos", "arctan")}
-UF["arctan2"] = z3.Function("arctan2", R, R, R)
-UF["pow"] = z3.Function("pow", R, R, R)
+UF["arctan2"] = z3.Function("uf_arctan2", R, R, R)
+UF["pow"] = z3.Function("uf_pow", R, R, R)
 PI = z3.Real("pi")  # constrained in solve.py: 3.14159 < pi < 3.1416
 
 
